@@ -144,8 +144,10 @@ pub fn install_panic_hook() {
             .location()
             .map(|l| {
                 let f = l.file();
-                let f = f.strip_prefix("/repo/").unwrap_or(f);
-                format!("{}:{}", f, l.line())
+                match f.strip_prefix("/repo/") {
+                    Some(lib) => format!("{}:{}", lib, l.line()),
+                    None => format!("harness:{}:{}", f, l.line()),
+                }
             })
             .unwrap_or_else(|| "?".to_string());
         let msg = if let Some(s) = info.payload().downcast_ref::<&str>() {
